@@ -6,9 +6,14 @@
    Doc:   a CAS with one sofa per entry of `views` (each entry: the successive sofa_string assignments of that
           view), annotations with the index of their own sofa, and the observations: begin/end found in the
           emitted XMI and JSON (parsed with the standard library), begin/end/covered text after loading each
-          document back; then, on each loaded CAS, the further sofa_string assignments `post` (per view) and
+          document back; then, on each loaded CAS, the operations `pmv` (per annotation: remove / assign offsets /
+          add to another view) and the further sofa_string assignments `post` (per view) and
           the begin/end found in the documents written from the loaded CAS (XMI from the XMI-loaded one, JSON
-          from the JSON-loaded one).  check_case evaluates the model of Offsets.v on the same input. *)
+          from the JSON-loaded one).  An annotation that changed its view before the first save is given as
+          `ann_run (mkDann v b e) ops` (Offsets.ann_run: the model of Cas.add / Cas.remove / attribute assignment).
+          The case does not say how the loaded documents were laid out (order of the elements / of the entries of
+          %FEATURE_STRUCTURES, sofas before or after the annotations): the model of the readers does not depend on it.
+          check_case evaluates the model of Offsets.v on the same input. *)
 From Cassis Require Import Base Offsets.
 Open Scope Z_scope.
 
@@ -20,7 +25,7 @@ Inductive case :=
 | Hist (init : option text) (sets : list (option text)) (qs : list (option Z)) (p2e_obs e2p_obs : list (option Z))
 | Doc (views : list (list (option text))) (anns : list dann)
       (xmi_w json_w : list obs_w) (xmi_l json_l : list obs_l)
-      (post : list (list (option text))) (xmi_w2 json_w2 : list obs_w).
+      (pmv : list (list aop)) (post : list (list (option text))) (xmi_w2 json_w2 : list obs_w).
 
 Definition opt_eqb {A} (eqb : A -> A -> bool) (a b : option A) : bool :=
   match a, b with Some x, Some y => eqb x y | None, None => true | _, _ => false end.
@@ -37,11 +42,11 @@ Definition model_loaded (load : option text -> sofa) (ss : list sofa) (anns : li
   let ss' := map (fun s => load (s_text s)) ss in
   map (fun a => let r := read_ann ss' (write_ann ss a) in (da_b r, da_e r, covered_text ss' r)) anns.
 
-(* continue on the loaded CAS: more setter calls per view, then write again *)
-Definition model_rewritten (load : option text -> sofa) (ss : list sofa) (anns : list dann)
+(* continue on the loaded CAS: annotations removed / re-added to another view, more setter calls per view, then write again *)
+Definition model_rewritten (load : option text -> sofa) (ss : list sofa) (anns : list dann) (pmv : list (list aop))
                            (post : list (list (option text))) : list obs_w :=
   let ss' := map (fun s => load (s_text s)) ss in
-  let anns' := map (fun a => read_ann ss' (write_ann ss a)) anns in
+  let anns' := run_moves (map (fun a => read_ann ss' (write_ann ss a)) anns) pmv in
   let ss2 := map (fun sp => fold_left sofa_set (snd sp) (fst sp)) (combine ss' post) in
   model_written ss2 anns'.
 
@@ -56,14 +61,14 @@ Definition check_case (c : case) : bool :=
       let s := sofa_run init sets in
       list_eqb (opt_eqb Z.eqb) (map (p2e (s_tbl s)) qs) po &&
       list_eqb (opt_eqb Z.eqb) (map (e2p (s_tbl s)) qs) eo
-  | Doc views anns xw jw xl jl post xw2 jw2 =>
+  | Doc views anns xw jw xl jl pmv post xw2 jw2 =>
       let ss := doc_sofas views in
       list_eqb obs_w_eqb (model_written ss anns) xw &&
       list_eqb obs_w_eqb (model_written ss anns) jw &&
       list_eqb obs_l_eqb (model_loaded load_sofa_xmi ss anns) xl &&
       list_eqb obs_l_eqb (model_loaded load_sofa_json ss anns) jl &&
-      list_eqb obs_w_eqb (model_rewritten load_sofa_xmi ss anns post) xw2 &&
-      list_eqb obs_w_eqb (model_rewritten load_sofa_json ss anns post) jw2
+      list_eqb obs_w_eqb (model_rewritten load_sofa_xmi ss anns pmv post) xw2 &&
+      list_eqb obs_w_eqb (model_rewritten load_sofa_json ss anns pmv post) jw2
   end.
 
 (* premises of the theorems in Props/C03.v: the table theorems hold for every text; the document theorems
@@ -72,5 +77,5 @@ Definition premises (c : case) : bool :=
   match c with
   | Table _ _ _ _ => true
   | Hist init sets _ _ _ => match s_text (sofa_run init sets) with Some _ => true | None => false end
-  | Doc views anns _ _ _ _ _ _ _ => forallb (ann_okb (doc_sofas views)) anns
+  | Doc views anns _ _ _ _ _ _ _ _ => forallb (ann_okb (doc_sofas views)) anns
   end.
